@@ -47,6 +47,15 @@ def run(pid, tier, seed, replay=None):
                 sweeps.append([{"op": "construct", "o": 1}, {"op": "read", "o": 1, "file": f, "armed": -1}, {"op": "writekey", "o": 1, "key": 1, "armed": -1},
                                {"op": "writekey", "o": 1, "key": 2, "armed": -1}, {"op": "writekey", "o": 1, "key": 1, "armed": k}, {"op": "writekey", "o": 1, "key": 2, "armed": k},
                                {"op": "writemem", "o": 1, "armed": -1}, {"op": "removekey", "o": 1, "key": 1}, {"op": "writekey", "o": 1, "key": 3, "armed": k}, {"op": "destroy", "o": 1}])
+        # the key store filled and emptied again, on an empty object and on loaded ones (removing the only / the last remaining key)
+        for head in ([{"op": "construct", "o": 1}], [{"op": "construct", "o": 1}, {"op": "read", "o": 1, "file": 1, "armed": -1}],
+                     [{"op": "constructfrom", "o": 1, "file": 2, "armed": -1}], [{"op": "construct", "o": 1}, {"op": "fit", "o": 1, "good": True, "armed": -1}]):
+            sweeps.append(head + [{"op": "removekey", "o": 1, "key": 1}, {"op": "removekey", "o": 1, "key": 2}, {"op": "removekey", "o": 1, "key": 3},
+                                  {"op": "writekey", "o": 1, "key": 1, "armed": -1}, {"op": "removekey", "o": 1, "key": 1},
+                                  {"op": "writekey", "o": 1, "key": 2, "armed": -1}, {"op": "writekey", "o": 1, "key": 3, "armed": -1},
+                                  {"op": "removekey", "o": 1, "key": 3}, {"op": "removekey", "o": 1, "key": 2}, {"op": "removekey", "o": 1, "key": 2},
+                                  {"op": "writekey", "o": 1, "key": 1, "armed": -1}, {"op": "writemem", "o": 1, "armed": -1},
+                                  {"op": "removekey", "o": 1, "key": 1}, {"op": "destroy", "o": 1}])
         for f in (11, 12, 13, 14, 15, 16):
             sweeps.append([{"op": "construct", "o": 1}, {"op": "read", "o": 1, "file": f, "armed": -1}, {"op": "readmem", "o": 1, "file": f, "armed": -1},
                            {"op": "read", "o": 1, "file": 1, "armed": -1}, {"op": "read", "o": 1, "file": 2, "armed": -1}, {"op": "destroy", "o": 1},
